@@ -21,7 +21,7 @@ pub struct World {
     pub locale: u8,      // 0 unset, 1 C, 2 en_US.UTF-8, 3 tr_TR.UTF-8, 4 nonsense
     pub rust_backtrace: u8, // 0 unset, 1 "0", 2 "1", 3 "full"
     pub stdin: u8,       // 0 /dev/null, 1 closed, 2 pipe with pending data, 3 regular file, 4 pty
-    pub stdout: u8,      // 0 file, 1 pipe, 2 /dev/null, 3 closed, 4 socket, 5 pty (raw), 6 pipe without reader (fault worlds only)
+    pub stdout: u8,      // 0 file, 1 pipe, 2 /dev/null, 3 closed, 4 socket, 5 pty (raw), 6 pipe without reader (fault worlds only), 7 /dev/full (fault worlds only), 8 regular file opened with O_APPEND
     pub stderr: u8,
     pub merged: bool,    // 2>&1 on one open file description (stdout's sink)
     pub decoys: bool,
@@ -103,8 +103,8 @@ impl World {
             "fds" => self.fds = 1 + rng.below(2) as u8,
             "script_mode" => self.script_mode = 1 + rng.below(4) as u8,
             "uid" => self.uid = 1,
-            "stdout" => self.stdout = 1 + rng.below(5) as u8,
-            "stderr" => self.stderr = 1 + rng.below(5) as u8,
+            "stdout" => self.stdout = [1, 2, 3, 4, 5, 8][rng.usize_below(6)],
+            "stderr" => self.stderr = [1, 2, 3, 4, 5, 8][rng.usize_below(6)],
             "merged" => self.merged = true,
             "decoys" => self.decoys = true,
             "clock" => {
@@ -195,7 +195,7 @@ impl World {
             "heap_pad" | "stack" | "file_name" | "rust_backtrace" | "pid" | "sig" | "umask" => 3,
             "env_pad" | "rel" | "argv0" | "env_kind" | "clock" | "fds" => 2,
             "cwd_name" | "locale" | "stdin" | "script_mode" => 4,
-            "stdout" | "stderr" => 5,
+            "stdout" | "stderr" => 6,
             "env_bytes" => 6,
             "spelling" => 7,
             _ => 0,
